@@ -1,0 +1,121 @@
+// Verification hooks. This module only exists when the crate is compiled with
+// `--cfg zkryptium_verif`; ordinary builds (and the test suite) never see it.
+//
+// Two things that cannot be observed through the public API are made observable:
+//   * every production random draw (`rng_draw`), recorded per thread with a
+//     per-thread sequence number, and
+//   * every request for BBS generators (`gen_request`), recorded before the
+//     work is done, with an optional per-thread budget that turns a runaway
+//     request into an unwinding panic carrying a typed payload.
+
+use std::cell::{Cell, RefCell};
+
+/// One recorded random draw.
+#[derive(Clone, Debug, PartialEq, Eq)]
+pub struct Draw {
+    /// Per-thread sequence number (starts at 0 for each thread).
+    pub seq: u64,
+    /// Name of the call site that produced the draw.
+    pub site: &'static str,
+    /// Requested size in bits (0 when the site has no notion of it).
+    pub bits: u32,
+    /// The value drawn, big-endian octets.
+    pub value: Vec<u8>,
+}
+
+/// One recorded generator request.
+#[derive(Clone, Debug, PartialEq, Eq)]
+pub struct GenRequest {
+    /// Number of generators requested.
+    pub count: usize,
+    /// The api_id the generators are derived from.
+    pub api_id: Vec<u8>,
+}
+
+/// Panic payload used when a generator request exceeds the installed budget.
+#[derive(Clone, Debug, PartialEq, Eq)]
+pub struct GenBudgetExceeded {
+    /// The offending request.
+    pub requested: usize,
+    /// The budget that was installed.
+    pub budget: usize,
+}
+
+thread_local! {
+    static DRAW_SEQ: Cell<u64> = Cell::new(0);
+    static DRAWS: RefCell<Option<Vec<Draw>>> = RefCell::new(None);
+    static GENS: RefCell<Option<Vec<GenRequest>>> = RefCell::new(None);
+    static GEN_BUDGET: Cell<Option<usize>> = Cell::new(None);
+}
+
+/// Start (or restart) recording on the calling thread.
+pub fn start_recording() {
+    DRAWS.with(|d| *d.borrow_mut() = Some(Vec::new()));
+    GENS.with(|g| *g.borrow_mut() = Some(Vec::new()));
+}
+
+/// Stop recording on the calling thread and drop what was recorded.
+pub fn stop_recording() {
+    DRAWS.with(|d| *d.borrow_mut() = None);
+    GENS.with(|g| *g.borrow_mut() = None);
+}
+
+/// Take the draws recorded on the calling thread since the last take.
+pub fn take_draws() -> Vec<Draw> {
+    DRAWS.with(|d| match d.borrow_mut().as_mut() {
+        Some(v) => std::mem::take(v),
+        None => Vec::new(),
+    })
+}
+
+/// Take the generator requests recorded on the calling thread since the last take.
+pub fn take_gen_requests() -> Vec<GenRequest> {
+    GENS.with(|g| match g.borrow_mut().as_mut() {
+        Some(v) => std::mem::take(v),
+        None => Vec::new(),
+    })
+}
+
+/// Install (or remove) the generator budget of the calling thread.
+pub fn set_gen_budget(budget: Option<usize>) {
+    GEN_BUDGET.with(|b| b.set(budget));
+}
+
+/// Record one random draw (no-op unless recording is on).
+pub fn rng_draw(site: &'static str, bits: u32, value: &[u8]) {
+    let seq = DRAW_SEQ.with(|s| {
+        let v = s.get();
+        s.set(v + 1);
+        v
+    });
+    DRAWS.with(|d| {
+        if let Some(v) = d.borrow_mut().as_mut() {
+            v.push(Draw {
+                seq,
+                site,
+                bits,
+                value: value.to_vec(),
+            });
+        }
+    });
+}
+
+/// Record a generator request; unwind if it exceeds the installed budget.
+pub fn gen_request(count: usize, api_id: &[u8]) {
+    GENS.with(|g| {
+        if let Some(v) = g.borrow_mut().as_mut() {
+            v.push(GenRequest {
+                count,
+                api_id: api_id.to_vec(),
+            });
+        }
+    });
+    if let Some(budget) = GEN_BUDGET.with(|b| b.get()) {
+        if count > budget {
+            std::panic::panic_any(GenBudgetExceeded {
+                requested: count,
+                budget,
+            });
+        }
+    }
+}
